@@ -174,6 +174,26 @@ def load (dst src : Nat) (off : Int) (fmt : Fmt) (long : Option Bool) : GenM Uni
     emit ⟨Consts.op_LSH + longBit lg, dst, 0, 0, shift⟩
     emit ⟨Consts.op_ARSH + longBit lg, dst, 0, 0, shift⟩
 
+/-- `Binary.calculate`, the right operand: an immediate for a small constant, otherwise computed into any
+register (`calcR` = `self.right.calculate(None, long)`), used, and released -/
+def binRight (op : BinOp) (small : Option Int) (calcR : GenM CalcRes) (d : Nat) (long' : Bool) : GenM Unit :=
+  match small with
+  | some v => emit ⟨op.opcode + longBit long', d, 0, 0, v⟩
+  | none => do
+    let rres ← calcR
+    emit ⟨op.opcode + Consts.op_REG + longBit long', d, rres.reg, 0, 0⟩
+    release rres.rel
+
+/-- `Binary.calculate`, the end: the result stays in `d` if no particular register was asked for or `d` is
+that register; otherwise the temporary is released and the result moved -/
+def binFinish (dst : Option Nat) (d : Nat) (long' : Bool) (rel : List Nat) : GenM CalcRes :=
+  if dst == none || dst == some d then
+    pure ⟨d, long', rel⟩
+  else do
+    release rel                                               -- end of `with self.ebpf.get_free_register`
+    emit ⟨Consts.op_MOV + Consts.op_REG + longBit long', dst.getD 0, d, 0, 0⟩
+    pure ⟨dst.getD 0, long', []⟩
+
 /-- the `calculate` context managers of `Constant`, `Register`, `Binary` (also `Sum`, `AndExpression`),
 `Negate`, `Absolute`, `Memory`.  Arguments as in Python: destination (`None` = any), `long`
 (`None` = inherit), `force`. -/
@@ -202,19 +222,8 @@ def calculate : Expr → Option Nat → Option Bool → Bool → GenM CalcRes
     let lres ← calculate l (some d0) long true
     let long' := long.getD lres.long
     release lres.rel                                          -- end of `with self.left.calculate(...)`
-    let d := lres.reg
-    match r.asSmallConst with
-    | some v => emit ⟨op.opcode + longBit long', d, 0, 0, v⟩
-    | none => do
-      let rres ← calculate r none (some long') false
-      emit ⟨op.opcode + Consts.op_REG + longBit long', d, rres.reg, 0, 0⟩
-      release rres.rel
-    if dst == none || dst == some d then
-      pure ⟨d, long', rel⟩
-    else do
-      release rel                                             -- end of `with self.ebpf.get_free_register`
-      emit ⟨Consts.op_MOV + Consts.op_REG + longBit long', dst.getD 0, d, 0, 0⟩
-      pure ⟨dst.getD 0, long', []⟩
+    binRight op r.asSmallConst (calculate r none (some long') false) lres.reg long'
+    binFinish dst lres.reg long' rel
   | .neg a, dst, long, force => do
     let res ← calculate a dst long force
     emit ⟨Consts.op_NEG + longBit res.long, res.reg, 0, 0, 0⟩
